@@ -67,11 +67,14 @@ def check(case):
         except PropertyViolation as v:
             raise PropertyViolation("after-second-inplace-update:" + v.bucket, "after a second in-place parameter update (back to the first values): " + v.message, v.detail)
     sparse_history(case)
-    gen.reinit_and_set(state, case)
+    mir = gen.mirrored(case)
+    gen.reinit_and_set(state, mir)
     try:
-        check_round(case, state)
+        check_round(mir, state)
     except PropertyViolation as v:
-        raise PropertyViolation("after-reinitialise:" + v.bucket, "after reinitialize_parameters() and writing the parameters again: " + v.message, v.detail)
+        raise PropertyViolation("after-reinitialise:" + v.bucket, "after reinitialize_parameters() and writing OTHER parameters into the new parameter objects: " + v.message, v.detail)
+    gen.set_net(state.rbm_am, case["am"])
+    gen.set_net(state.rbm_ph, case["ph"])
     # shared object: this state's phase network is handed to ANOTHER mixed state as its (amplitude) module and that state is evaluated;
     # the first state must be unaffected
     from qucumber.nn_states import DensityMatrix
